@@ -83,9 +83,10 @@ def ofSrc : Src → Sx
   | .file t => .list [.sym "file", ofNat t]
   | .pipe => .sym "pipe"
   | .broken => .sym "broken"
-  | .blocked => .sym "blocked"
 
-def ofStageOut (s : StageOut) : Sx := .list [ofSrc s.src, ofListWith ofPlace s.out, ofListWith ofPlace s.err]
+def ofStageOut (s : StageOut) : Sx :=
+  .list [ofSrc s.src, ofListWith ofPlace s.out, ofListWith ofPlace s.err,
+         ofListWith (fun (x : Nat × Str) => .list [ofNat x.1, ofChars x.2]) s.files]
 
 def ofOutcome (o : Outcome) : Sx := .list [ofOpt ofErr o.err, ofBool o.raisedAfter, ofListWith ofStageOut o.stages]
 
